@@ -45,3 +45,70 @@ def headersAllowedIn304 : List Bytes :=
 def redirectStatuses : List Nat := [301, 302, 303, 307, 308]
 
 end Spec
+
+namespace Spec
+open Go
+
+/-- C13/C14: source order of the file-system and notification calls in `storageWriter.Close`
+    that `Model.Crash.freshFill` / `revalFill` / `reval304` mirror: stat, fd close, (error paths
+    delete), xattr set, chtimes, rename, finishAndNotify — publication last -/
+def effectsClose : List Bytes :=
+  [b!"sw.Delete", b!"sw.finishAndNotify", b!"os.OpenFile", b!"sw.Delete", b!"sw.Delete", b!"sw.fd.Stat",
+   b!"sw.Delete", b!"sw.fd.Close", b!"sw.Delete", b!"sw.Delete", b!"sw.Delete", b!"sw.Delete", b!"sw.Delete",
+   b!"xattr.Set", b!"sw.Delete", b!"os.Chtimes", b!"os.Rename", b!"sw.Delete", b!"sw.finishAndNotify"]
+def effectsWriteHeader : List Bytes :=
+  [b!"createAllSubdirs", b!"sw.notify", b!"createIfNotExists", b!"os.Create", b!"sw.notify"]
+def effectsWrite : List Bytes := [b!"sw.fd.Write"]
+def effectsDelete : List Bytes := [b!"sw.fd.Close", b!"os.Remove"]
+def effectsChangeKey : List Bytes := [b!"pathExists", b!"pathExists", b!"os.Rename"]
+def effectsFinishAndNotify : List Bytes := [b!"sw.closeFinisher", b!"sw.notify"]
+def effectsCreateIfNotExists : List Bytes := [b!"os.Stat", b!"os.Create"]
+
+/-- C06: the decision table of util/compress.go as the specification reads it: every `return` of
+    acceptsEncodingFromString, GetRecompression, fallbackCompressionWithDefault and
+    ContentEncodingFromCompressionType with the conditions / case labels leading to it, in
+    source order (the cell `acceptsGzip` x "br" => Add Brotli is finding C06-a) -/
+def recompressTable : List Bytes := [
+  b!"acceptsEncodingFromString: if strings.Contains(s,\";\") => acceptsBrokenClient",
+  b!"acceptsEncodingFromString: elif strings.Contains(s,\"br\") => acceptsBrotli",
+  b!"acceptsEncodingFromString: elif strings.Contains(s,\"gzip\") => acceptsGzip",
+  b!"acceptsEncodingFromString:  => acceptsOther",
+  b!"GetRecompression: switch acceptsEncodingFromString(acceptEncoding) case acceptsBrotli / switch contentEncoding case \"br\" => Recompression{Add:CompressionTypeNone,Remove:CompressionTypeNone}",
+  b!"GetRecompression: switch acceptsEncodingFromString(acceptEncoding) case acceptsBrotli / switch contentEncoding case \"gzip\" => Recompression{Add:CompressionTypeBrotli,Remove:CompressionTypeGzip}",
+  b!"GetRecompression: switch acceptsEncodingFromString(acceptEncoding) case acceptsBrotli / switch contentEncoding default => fallbackCompressionWithDefault(contentEncoding,contentType,CompressionTypeBrotli)",
+  b!"GetRecompression: switch acceptsEncodingFromString(acceptEncoding) case acceptsGzip / switch contentEncoding case \"gzip\" => Recompression{Add:CompressionTypeNone,Remove:CompressionTypeNone}",
+  b!"GetRecompression: switch acceptsEncodingFromString(acceptEncoding) case acceptsGzip / switch contentEncoding case \"br\" => Recompression{Add:CompressionTypeBrotli,Remove:CompressionTypeNone}",
+  b!"GetRecompression: switch acceptsEncodingFromString(acceptEncoding) case acceptsGzip / switch contentEncoding default => fallbackCompressionWithDefault(contentEncoding,contentType,CompressionTypeGzip)",
+  b!"GetRecompression: switch acceptsEncodingFromString(acceptEncoding) case acceptsBrokenClient / if (contentEncoding==\"gzip\") => Recompression{Add:CompressionTypeNone,Remove:CompressionTypeGzip}",
+  b!"GetRecompression: switch acceptsEncodingFromString(acceptEncoding) case acceptsBrokenClient => Recompression{Add:CompressionTypeNone,Remove:CompressionTypeNone}",
+  b!"GetRecompression: switch acceptsEncodingFromString(acceptEncoding) case acceptsOther => break",
+  b!"GetRecompression:  => fallbackCompressionWithDefault(contentEncoding,contentType,CompressionTypeNone)",
+  b!"fallbackCompressionWithDefault: if (((contentEncoding==\"\")||(contentEncoding==\"identity\"))&&((contentType==\"application/json\")||strings.HasPrefix(contentType,\"text/\"))) => Recompression{Add:def,Remove:CompressionTypeNone}",
+  b!"fallbackCompressionWithDefault:  => Recompression{Add:CompressionTypeNone,Remove:CompressionTypeNone}",
+  b!"ContentEncodingFromCompressionType: switch compressionType case CompressionTypeGzip => \"gzip\"",
+  b!"ContentEncodingFromCompressionType: switch compressionType case CompressionTypeBrotli => \"br\"",
+  b!"ContentEncodingFromCompressionType: switch compressionType default => \"\"" ]
+
+end Spec
+
+namespace Spec
+open Go
+
+/-- C07: the documented fixed Cache-Control of cached 400–404 answers (60 seconds) -/
+def cacheable4xxCacheControl : Bytes := b!"s-maxage=60, max-age=60"
+
+/-- C07: the cache-status header that is never stored -/
+def cacheStatusHeader : Bytes := b!"richie-edge-cache"
+
+/-- C07: the storing branch of `storageWriter.WriteHeader` that `Model.Codec.storePrep` mirrors:
+    status recorded, 400–404 Cache-Control override, deny richie-edge-cache, strip the ETag suffix,
+    deny again and keep the result as the entry's response header -/
+def storePrepShape : List Bytes := [
+  b!"if ((((s!=200)&&!IsCacheableError(s))&&!util.IsRedirect(s))||dirs.DoNotCache()) {…return} else",
+  b!"sw.writtenStatus=s",
+  b!"if IsCacheableError(s) {h.Set(\"cache-control\",\"s-maxage=60, max-age=60\")}",
+  b!"h=util.DenyHeaders(h,{HeaderRrrouterCacheStatus})",
+  b!"if etag:=h.Get(\"etag\"); (len(etag)>0) {h.Set(\"etag\",util.StripETagSuffix(etag))}",
+  b!"sw.responseHeader=util.DenyHeaders(h,{HeaderRrrouterCacheStatus})" ]
+
+end Spec
